@@ -3,6 +3,8 @@
 package main
 
 import (
+	"regexp"
+	"strconv"
 	"encoding/json"
 	"flag"
 	"fmt"
@@ -204,11 +206,17 @@ func init() {
 		gen: func(seed int64, idx int) *Case {
 			o := dmlOpts
 			o.reincarnate = idx%4 == 2
+			o.unequalCount = idx%6 == 5
+			if o.unequalCount {
+				o.deviants = false
+			}
 			return genCase(seed, idx, o)
 		},
 		check: func(run *vf.Run, res *caseResult) {
 			vs := checkC01(res.rt, run)
 			for _, v := range vs {
+				v = pairingConflict("C01", res.rt.c, v)
+				v = recreatedPartition("C01", res.rt, v)
 				run.Violate(v.key, v.desc, replayOf(res, nil))
 			}
 			noteDML(run, res)
@@ -225,11 +233,17 @@ func init() {
 		gen: func(seed int64, idx int) *Case {
 			o := dmlOpts
 			o.reincarnate = idx%4 == 2
+			o.unequalCount = idx%6 == 5
+			if o.unequalCount {
+				o.deviants = false
+			}
 			return genCase(seed, idx, o)
 		},
 		check: func(run *vf.Run, res *caseResult) {
 			vs := checkC02(res.rt, run)
 			for _, v := range vs {
+				v = pairingConflict("C02", res.rt.c, v)
+				v = recreatedPartition("C02", res.rt, v)
 				run.Violate(v.key, v.desc, replayOf(res, nil))
 			}
 			noteDML(run, res)
@@ -242,10 +256,91 @@ func init() {
 		}}
 }
 
+// conflictingPairing: with different channel counts the manager keeps ONE partner channel per key channel (the
+// source channel when there are at least as many source channels, else the downstream channel) and at most
+// ceil(larger/smaller) keys per partner. A case whose placements pair one key channel with two different partners,
+// or load a partner beyond that quota, cannot be served by that mapping: the manager falls back to waiting for /
+// forwarding between handlers.
+func conflictingPairing(c *Case) bool {
+	if c.SrcChanNum == c.DstChanNum {
+		return false
+	}
+	larger, smaller := c.SrcChanNum, c.DstChanNum
+	if smaller > larger {
+		larger, smaller = smaller, larger
+	}
+	quota := (larger + smaller - 1) / smaller
+	partner := map[string]string{}
+	load := map[string]map[string]bool{}
+	for _, col := range c.Colls {
+		for _, sh := range col.Shards {
+			k, v := sh.SrcP, sh.DstP
+			if c.SrcChanNum < c.DstChanNum {
+				k, v = sh.DstP, sh.SrcP
+			}
+			if old, ok := partner[k]; ok && old != v {
+				return true
+			}
+			partner[k] = v
+			if load[v] == nil {
+				load[v] = map[string]bool{}
+			}
+			load[v][k] = true
+			if len(load[v]) > quota {
+				return true
+			}
+		}
+	}
+	return false
+}
+
+// pairingConflict re-keys a violation observed in a case with a conflicting channel pairing under unequal channel
+// counts (one recorded finding for that input shape; everything else keeps its own key).
+func pairingConflict(prop string, c *Case, v vio) vio {
+	if !conflictingPairing(c) {
+		return v
+	}
+	return vio{key: prop + "/conflicting-channel-pairing-under-unequal-channel-counts", desc: fmt.Sprintf("[%s, %d source vs %d downstream channels] %s", v.key, c.SrcChanNum, c.DstChanNum, v.desc)}
+}
+
+var uidInDesc = regexp.MustCompile(`uid=(\d+)`)
+
+// recreatedPartition re-keys a violation whose message belongs to a partition created again under the name of a
+// dropped one (the manager decides from its name cache whether the new partition must be created downstream).
+func recreatedPartition(prop string, rt *caseRT, v vio) vio {
+	m := uidInDesc.FindStringSubmatch(v.desc)
+	if m == nil {
+		return v
+	}
+	uid, _ := strconv.ParseInt(m[1], 10, 64)
+	rt.mu.Lock()
+	sp, ok := rt.msgSpec[uid]
+	rt.mu.Unlock()
+	if !ok || sp.Part <= 0 {
+		return v
+	}
+	parts := rt.c.Colls[sp.Coll].Parts
+	for pi := 0; pi < sp.Part; pi++ {
+		if parts[pi].Name == parts[sp.Part].Name {
+			return vio{key: prop + "/message-of-partition-created-again-under-a-dropped-name", desc: fmt.Sprintf("[%s] %s", v.key, v.desc)}
+		}
+	}
+	return v
+}
+
 // noteDML records the shared coverage counters of the dml profile.
 func noteDML(run *vf.Run, res *caseResult) {
 	rt := res.rt
 	run.Count("cases_quiescent", 1)
+	if rt.c.SrcChanNum != rt.c.DstChanNum {
+		run.Count("cases_unequal_channel_counts", 1)
+		if conflictingPairing(rt.c) {
+			run.Count("cases_conflicting_channel_pairing", 1)
+		}
+	}
+	if strings.Contains(rt.c.Note, "dropped and created again") {
+		run.Count("cases_partition_created_again", 1)
+	}
 	sig := sigOfCase(rt)
 	run.Distinct("interleavings", sig)
 	streams := map[string]bool{}
